@@ -2609,21 +2609,23 @@ void Validator::ValidatorImpl::checkUniqueResetOrders(const ModelPtr &model)
 
 void Validator::ValidatorImpl::addResetOrderMapItem(const VariablePtr &variable, int order, ResetOrderMap &resetOrderMap)
 {
-    auto currentVariable = variable;
-    bool existingVariableFound = resetOrderMap.count(currentVariable) > 0;
+    auto find = [&](const VariablePtr &v) {
+        return std::find_if(resetOrderMap.begin(), resetOrderMap.end(), [=](const auto &entry) { return entry.first == v; });
+    };
+
+    auto existingEntry = find(variable);
     size_t i = 0;
 
-    while ((i < variable->equivalentVariableCount()) && !existingVariableFound) {
-        currentVariable = variable->equivalentVariable(i);
-        existingVariableFound = resetOrderMap.count(currentVariable) > 0;
+    while ((i < variable->equivalentVariableCount()) && (existingEntry == resetOrderMap.end())) {
+        existingEntry = find(variable->equivalentVariable(i));
         ++i;
     }
 
-    if (existingVariableFound) {
-        resetOrderMap[currentVariable].emplace_back(order);
+    if (existingEntry != resetOrderMap.end()) {
+        existingEntry->second.emplace_back(order);
     } else {
         std::vector<int> orders = {order};
-        resetOrderMap.emplace(variable, orders);
+        resetOrderMap.emplace_back(variable, orders);
     }
 }
 
